@@ -142,8 +142,10 @@ def _build_all(root):
                       [(shims, ["-O0"])]),
             ex.submit(_build_lib, root, "pat", ["-O0", "-fopenmp", "-ftrivial-auto-var-init=pattern"], ["-fopenmp"],
                       [(shims, ["-O0"])]),
-            ex.submit(_build_lib, root, "vrt", ["-O0", "-g", "-fopenmp", "-fsanitize=thread"], [],
-                      [(os.path.join(cdir, "vrt.c"), ["-O2", "-g"]), (shims, ["-O0"])]),
+            ex.submit(_build_lib, root, "vrt",
+                      ["-O0", "-g", "-fopenmp", "-fsanitize=thread", "-fno-omit-frame-pointer", "-Dmalloc=vrt_malloc",
+                       "-Dcalloc=vrt_calloc", "-Drealloc=vrt_realloc", "-Dfree=vrt_free"], [],
+                      [(os.path.join(cdir, "vrt.c"), ["-O2", "-g", "-fno-omit-frame-pointer"]), (shims, ["-O0"])]),
         ]
         for f in futs:
             f.result()
@@ -185,6 +187,7 @@ def env_for(root, nthreads=1):
     e["OMP_NUM_THREADS"] = str(nthreads)
     e["NUMBA_NUM_THREADS"] = e.get("NUMBA_NUM_THREADS", "16")
     e["NUMBA_THREADING_LAYER"] = "omp" if False else e.get("NUMBA_THREADING_LAYER", "workqueue")
+    e["OMP_WAIT_POLICY"] = "passive"
     e["OPENBLAS_NUM_THREADS"] = "1"
     e["MKL_NUM_THREADS"] = "1"
     e["VT_ROOT"] = root
